@@ -1,12 +1,14 @@
 /- Line-protocol driver: one command per input line, one output line per command. -/
 import LasModel.Driver.Ge
 import LasModel.Driver.Sf
+import LasModel.Driver.VlrD
 namespace LasModel.Driver
 
 def dispatch (line : String) : String :=
   match (line.trimAscii.toString.splitOn " ").filter (· ≠ "") with
   | "ge" :: rest => (Ge.handle rest).getD "bad-op"
   | "sf" :: rest => (Sf.handle rest).getD "bad-op"
+  | "vlr" :: rest => (VlrD.handle rest).getD "bad-op"
   | _ => "bad-op"
 
 partial def loop (h : IO.FS.Stream) (out : IO.FS.Stream) : IO Unit := do
